@@ -211,6 +211,32 @@ func BuildRequest(method, target, contentType string, body []byte) []byte {
 	return b.Bytes()
 }
 
+// BuildRequestChunked renders the same request without a Content-Length: the body travels in transfer-encoding chunks
+// of the given sizes (cycled; a size < 1 counts as 1), which every HTTP/1.1 server has to accept (RFC 7230, 3.3.1).
+func BuildRequestChunked(method, target, contentType string, body []byte, sizes []int) []byte {
+	var b bytes.Buffer
+	fmt.Fprintf(&b, "%s %s HTTP/1.1\r\nHost: accessory.local\r\n", method, target)
+	if contentType != "" {
+		fmt.Fprintf(&b, "Content-Type: %s\r\n", contentType)
+	}
+	b.WriteString("Transfer-Encoding: chunked\r\n\r\n")
+	for i := 0; len(body) > 0; i++ {
+		n := 1
+		if len(sizes) > 0 && sizes[i%len(sizes)] > 1 {
+			n = sizes[i%len(sizes)]
+		}
+		if n > len(body) {
+			n = len(body)
+		}
+		fmt.Fprintf(&b, "%x\r\n", n)
+		b.Write(body[:n])
+		b.WriteString("\r\n")
+		body = body[n:]
+	}
+	b.WriteString("0\r\n\r\n")
+	return b.Bytes()
+}
+
 // ReadMessage reads the next complete message (response or EVENT).
 func (c *Conn) ReadMessage() (*Message, error) {
 	c.lastRaw.Reset()
